@@ -663,7 +663,8 @@ def selftest(with_mutants=True):
     for cfg, module, inv in [('Conc_A_noD7.cfg', 'FBConcMC.tla', 'DirsOwned'), ('Conc_B_noD16.cfg', 'FBConcMC.tla', 'WinnerOutputIntact'),
                              ('Fence_root_late.cfg', 'FBFence.tla', 'RootReturnedBeforeWrite'),
                              ('Backup_nonatomic.cfg', 'FBBackup.tla', 'SlotsDistinct'),
-                             ('Backup_twice.cfg', 'FBBackup.tla', 'RestoreGivesOldest')]:
+                             ('Backup_twice.cfg', 'FBBackup.tla', 'RestoreGivesOldest'),
+                             ('Hash_noD26.cfg', 'FBHash.tla', 'RecordedFresh')]:
         good, st, out = tlc.model_check(cfg, module, workers=8, timeout=300)
         hit = ('Invariant %s is violated' % inv) in out
         print('selftest: %-22s expects violation of %-24s -> %s' % (cfg, inv, 'found' if hit else 'NOT FOUND'))
